@@ -14,6 +14,7 @@
 //   refsimple <s> <tol> <output> [ll: i..]                 (global / sequence surplus refinement)
 //   refaniso <s> <type> <mingrowth> <output> [ll: i..]
 //   update <s> <depth> <type> [aw: i..] [ll: i..]
+//   deliverall <s> <fn> <max>   (the first min(max, #candidates) candidates of the last cand call)
 //   merge <s> | clearref <s> | setcoef <s> <fn> | remtol <s> <tol> <output> | remcount <s> <n> <output>
 //   begin <s> | finish <s>
 //   cand <s> aw <type> [aw: i..] [ll: i..] | cand <s> out <type> <output> [ll: i..] | cand <s> surp <tol> <crit> <output> [ll: i..]
@@ -232,6 +233,10 @@ static void run_line(const std::string &line) {
         int d = s.g.getNumDimensions(); std::vector<double> x;
         for (int i : idx) { if ((size_t) (i + 1) * d > s.cand.size()) throw std::runtime_error("driver: candidate index out of range"); x.insert(x.end(), s.cand.begin() + (size_t) i * d, s.cand.begin() + (size_t) (i + 1) * d); }
         s.g.loadConstructedPoints(x, fn_values(fn, x, d, s.g.getNumOutputs())); }
+    else if (cmd == "deliverall") { Slot &s = S(k.next()); std::string fn = k.next(); int mx = k.ni();      // deliverall <s> <fn> <max>: the first min(max, #candidates) candidates
+        int d = s.g.getNumDimensions(); size_t n = d ? s.cand.size() / (size_t) d : 0; if ((size_t) mx < n) n = (size_t) mx;
+        std::vector<double> x(s.cand.begin(), s.cand.begin() + n * (size_t) d);
+        if (n > 0) s.g.loadConstructedPoints(x, fn_values(fn, x, d, s.g.getNumOutputs())); }
     else if (cmd == "deliverx") { Slot &s = S(k.next()); std::string fn = k.next(); auto m = k.keyed(); std::vector<double> x = toDbls(m["x:"]);
         s.g.loadConstructedPoints(x, fn_values(fn, x, s.g.getNumDimensions(), s.g.getNumOutputs())); }
     else if (cmd == "copy") { Slot &dst = S(k.next()); Slot &src = S(k.next()); if (k.more()) { int b = k.ni(), e = k.ni(); dst.g.copyGrid(src.g, b, e); } else dst.g.copyGrid(src.g); dst.cand = src.cand; }
